@@ -206,6 +206,53 @@ def mkItems (next : Nat) : List Piece → List Node × Nat
     let (rest, n') := mkItems (next + 1) r
     (.mk next k d [] [] :: rest, n')
 
+/-! ### the initial state: a parsed document, ids in pre-order (node, its attributes with their value
+    items, its children) -/
+def buildAttrs (next : Nat) : List Attr → List Node × Nat
+  | [] => ([], next)
+  | a :: r =>
+    let items := mkItems (next + 1) a.vals
+    let rest := buildAttrs items.2 r
+    (Node.mk next (.attr a.name.text true) [] [] items.1 :: rest.1, rest.2)
+
+mutual
+def buildNode (next : Nat) : Item → Node × Nat
+  | .text s => (.mk next .text s [] [], next + 1)
+  | .cdata s => (.mk next .cdata s [] [], next + 1)
+  | .comment s => (.mk next .comment s [] [], next + 1)
+  | .pi t d => (.mk next (.pi t) (d.getD []) [] [], next + 1)
+  | .charRef d h => (.mk next (.ref ((if h then "&#x".toList else "&#".toList) ++ d ++ [';'])) [] [] [], next + 1)
+  | .entRef n => (.mk next (.ref n) [] [] [], next + 1)
+  | .elem q attrs kids =>
+      let as := buildAttrs (next + 1) attrs
+      let ks := buildNodes as.2 kids
+      (.mk next (.elem q.text) [] as.1 ks.1, ks.2)
+def buildNodes (next : Nat) : List Item → List Node × Nat
+  | [] => ([], next)
+  | k :: r =>
+    let x := buildNode next k
+    let xs := buildNodes x.2 r
+    (x.1 :: xs.1, xs.2)
+end
+
+def buildTop (next : Nat) : TopItem → Node × Nat
+  | .comment s => (Node.mk next .comment s [] [], next + 1)
+  | .pi tg d => (Node.mk next (.pi tg) (d.getD []) [] [], next + 1)
+  | .doctype dt => (Node.mk next (.doctype dt.name.text) [] [] [], next + 1)
+  | .elem e => buildNode next e
+
+def buildTops (next : Nat) : List TopItem → List Node × Nat
+  | [] => ([], next)
+  | t :: r =>
+    let x := buildTop next t
+    let xs := buildTops x.2 r
+    (x.1 :: xs.1, xs.2)
+
+/-- the state a history starts from: the document node has id 0, every node has a handle -/
+def buildSt (d : IDoc) : St :=
+  let ks := buildTops 1 d.kids
+  { doc := .mk 0 .doc [] [] ks.1, detached := [], next := ks.2, handles := (List.range ks.2).map some }
+
 /-! ### operations -/
 inductive Res where
   | ok
